@@ -605,3 +605,46 @@ Proof.
   intros Hok (g & Hg & Hr & Ht). exists g. unfold g_payload in Hr.
   rewrite rsplit1_payload in Hr by (now apply Hok). inversion Hr. auto.
 Qed.
+
+(* ================================================================ D. the relying party's cookie helper *)
+Lemma client_roundtrip btxt k load ts :
+  no_c bar load = true -> no_c bar ts = true ->
+  client_parse btxt k (client_make k load ts) = Ok (load, ts).
+Proof.
+  intros Hl Ht. unfold client_parse, client_make.
+  rewrite wsplit_app, (wsplit_nobar (chs load)) by (now apply no_bar_chs).
+  rewrite wsplit_app, (wsplit_nobar (chs ts)) by (now apply no_bar_chs).
+  change (wsplit [Bl (client_mac k load ts)]) with [[Bl (client_mac k load ts)]].
+  cbn [app]. rewrite !wtext_chs. unfold client_mac. now rewrite macv_refl.
+Qed.
+
+Section ClientTamper.
+  Variable btxt : term -> pystr.
+  Variable k : nat.
+  Variable G : list (pystr * pystr).          (* (load, timestamp) of every cookie the relying party issued *)
+  Let K (t : term) : Prop :=
+    (exists g, In g G /\ t = client_mac k (fst g) (snd g)) \/ (exists k', t = Key k' /\ k' <> k).
+
+  Lemma secret_client t : K t -> ~ sub (Key k) t.
+  Proof.
+    intros [(g & _ & ->)|(k' & -> & Hk)] Hs; unfold client_mac in *; sub_inv. inversion Hs; congruence.
+  Qed.
+
+  (* what the unframed MAC really guarantees: only the CONCATENATION load ‖ timestamp is authenticated *)
+  Lemma client_tamper_partial w load ts :
+    wire_derivable K w -> client_parse btxt k w = Ok (load, ts) ->
+    exists g, In g G /\ fst g ++ snd g = load ++ ts.
+  Proof.
+    intros Hw Hp. unfold client_parse in Hp.
+    pose proof (wd_split K w Hw) as Hd.
+    destruct (wsplit w) as [|c [|t [|s [|x [|y rest]]]]]; try discriminate.
+    destruct s as [|[ch|m] [|s2 s']]; try discriminate.
+    destruct (macv k (wtext btxt c ++ wtext btxt t) m) eqn:Em; [|discriminate].
+    inversion Hp; subst load ts. apply macv_true in Em. subst m.
+    assert (Hder : derivable K (Mac k (Atom (wtext btxt c ++ wtext btxt t)))).
+    { apply (Hd [Bl (Mac k (Atom (wtext btxt c ++ wtext btxt t)))]); [cbn; auto|now left]. }
+    apply (mac_genuine K k secret_client) in Hder as (t0 & Ht0 & Hsub).
+    destruct Ht0 as [(g & Hg & ->)|(k' & -> & _)]; unfold client_mac in Hsub; sub_inv.
+    injection Hsub as E. exists g. split; [exact Hg|now symmetry].
+  Qed.
+End ClientTamper.
